@@ -666,6 +666,8 @@ class Circuit(Function):
                     # new links have to be registered in the users index.
                     for operand in new_operands:
                         self._add_user(operand, replaced_label)
+                    if cur_gate.gate_type != gate.INPUT:
+                        gates_for_block.add(replaced_label)
 
         self.set_outputs(
             [output for output in self._outputs if output not in this_connectors]
